@@ -238,7 +238,9 @@ def ex_str(prefix, elems, target):
     text = prefix + '"' + s + '"'
     if w > 1:
         text = prefix + '"' + s.replace('""', '" %s"' % prefix) + '"'
-    return Ex('str', text, w=w, ischar=(w == 1), elemkey=tkey, data=list(elems) + [0])
+    data = list(elems) + [0]
+    return Ex('str', text, w=w, ischar=(w == 1), elemkey=tkey, data=data,
+              sym=lit_id(b''.join((c & ((1 << (8 * w)) - 1)).to_bytes(w, 'little') for c in data)))
 
 
 # ----------------------------------------------------------------------------- the spec machine
@@ -510,6 +512,8 @@ def scalar_leaf(t, off, b, a, e):
         if e.kind == 'int' and e.v == 0:
             return Leaf(pos, width, 'int', v=0)
         if e.kind == 'str':
+            if e.w != 1 or t.ptrto != 'char':
+                raise SpecError('string literal for an incompatible pointer')
             return Leaf(pos, width, 'addr', sym=e.sym, off=0)
         if e.kind in ('addr', 'clit'):
             return Leaf(pos, width, 'addr', sym=e.sym, off=e.off)
@@ -964,10 +968,52 @@ class Gen:
 
     allow_braced_override = False
 
+    def path_into(self, t, off, lo, hi):
+        """designators from aggregate t (at byte offset off) to a scalar inside the byte range [lo, hi), or None"""
+        r = self.rng
+        out = []
+        while is_agg(t):
+            if t.kind == 'arr':
+                n = t.n if t.n is not None else 0
+                idx = [i for i in range(n) if off + i * t.elem.size < hi and lo < off + (i + 1) * t.elem.size]
+                if not idx:
+                    return None
+                i = r.choice(idx)
+                out.append(('idx', i))
+                off += i * t.elem.size
+                t = t.elem
+            else:
+                ms = [mm for mm in t.named() if off + mm.off < hi and lo < off + mm.off + mm.ty.size]
+                if t.kind == 'union':
+                    ms = ms[:1]
+                if not ms:
+                    return None
+                mm = r.choice(ms)
+                off += mm.off
+                t = mm.ty
+                if mm.name is not None:
+                    out.append(('fld', mm.name))
+                elif not is_agg(t):
+                    return None
+                else:
+                    # an anonymous member: name one of its members instead
+                    sub = self.path_into(t, off, lo, hi)
+                    return out + sub if sub else None
+        return out or None
+
     def random_designators(self, m, L, auto):
         """a random designator path below the braced aggregate"""
         r = self.rng
         t = L.base.ty
+        if r.random() < 0.3:
+            # an element inside a sub-object that a string literal / struct value initialised as a whole
+            whole = [lf for lf in m.leaves if lf.kind in ('str', 'opq') and lf.width > 8 and lf.pos % 8 == 0
+                     and 8 * L.base.off <= lf.pos and lf.pos + lf.width <= 8 * (L.base.off + (t.size or 10 ** 9))]
+            if whole:
+                lf = r.choice(whole)
+                p = self.path_into(t, L.base.off, lf.pos // 8, (lf.pos + lf.width) // 8)
+                if p:
+                    return p
         out = []
         depth = 0
         while True:
